@@ -11,7 +11,7 @@ rsync -a --exclude target --exclude .git /repo/ "$W"/
 rm -rf "$W/.git"
 rc=0
 for P in "$@"; do
-  out=$(cd /verif && ./check "$P" --repo "$W" 2>&1)
+  out=$(cd ${VERIF_DIR:-/verif} && IWE_VERIF_CACHE=/verif/.cache ./check "$P" --repo "$W" 2>&1)
   code=$?
   echo "$P exit=$code $(echo "$out" | grep -c '^VIOLATION') violation(s)"
   echo "$out" | grep -A4 '^VIOLATION' | grep -E 'instance:|why:' | sed 's/^/    /' | cut -c1-400
